@@ -32,8 +32,7 @@ ALLOWED = {
 def exporters(ctx: Ctx):
     """(entry qualname, roots that denote the exported object)"""
     out = []
-    ctx.fenv("prov.serializers.Registry.load_serializers")
-    reg = ctx.f.class_attr("prov.serializers.Registry", "serializers")
+    reg = ctx.registry_table()
     for fmt, cls in sorted(reg.items()):
         q = ctx.p.lookup_method(cls.qual, "serialize")
         out.append((q, {"self"}, "serialize(format=%r)" % fmt))
@@ -247,8 +246,10 @@ def c12_r2(ctx: Ctx, rule):
     for q, fi in ctx.p.functions.items():
         for c in calls_in(fi.node):
             if call_name(c) in ins and isinstance(c.func, ast.Attribute) and c.args:
+                from .paths import record_ctor_func
+
                 a = resolve_local(fi.node, c.args[0])
-                ok = isinstance(a, ast.Call) and (isinstance(a.func, ast.Subscript) or _is_ctor(ctx, fi, a))
+                ok = isinstance(a, ast.Call) and (record_ctor_func(ctx, q, a) is not None or _is_ctor(ctx, fi, a))
                 res.ob("%s: %s receives %s: freshly constructed=%s" % (short(q), norm(c.func), norm(a)[:60], ok))
                 if not ok:
                     res.fail(rule.id, "shared-record::%s::%s" % (q, norm(c)), ctx.loc(q, c),
@@ -358,7 +359,7 @@ def c08_r1(ctx: Ctx, rule):
     eff = get_effects(ctx)
     q = unified_helper(ctx)
     fi = ctx.fn(q)
-    merges = [c for c in calls_in(fi.node) if call_name(c) == "add_attributes" and isinstance(c.func, ast.Attribute)]
+    merges = [c for q2 in ctx.helper_closure(q) if q2.startswith(BUNDLE + ".") for c in calls_in(ctx.fn(q2).node) if call_name(c) == "add_attributes" and isinstance(c.func, ast.Attribute)]
     if not merges:
         raise AnalysisError("%s: no merging add_attributes call" % short(q))
     # receiver freshness is read off the effect summary: no CONTENT effect rooted at self may come from this helper
@@ -387,14 +388,20 @@ def c08_r2(ctx: Ctx, rule):
     res = RuleResult()
     q = unified_helper(ctx)
     fi = ctx.fn(q)
-    merges = [c for c in calls_in(fi.node) if call_name(c) == "add_attributes"]
+    hcl = [x for x in ctx.helper_closure(q) if x.startswith(BUNDLE + ".")]
+    merges = [c for x in hcl for c in calls_in(ctx.fn(x).node) if call_name(c) == "add_attributes"]
     ok = False
     why = ""
+    split = len(hcl) > 1 and not any(call_name(c) == "add_attributes" for c in calls_in(fi.node))
     # shape 1: groups are built under a key that includes get_type() / type()
-    for n in walk_function(fi.node):
-        if isinstance(n, ast.Subscript) and isinstance(n.slice, ast.Tuple):
-            if any(isinstance(x, ast.Call) and call_name(x) in ("get_type", "type") for x in ast.walk(n.slice)):
-                ok, why = True, "grouping key %s" % norm(n.slice)
+    for x in hcl:
+        for n in walk_function(ctx.fn(x).node):
+            if isinstance(n, ast.Subscript) and isinstance(n.slice, ast.Tuple):
+                if any(isinstance(y, ast.Call) and call_name(y) in ("get_type", "type") for y in ast.walk(n.slice)):
+                    ok, why = True, "grouping key %s" % norm(n.slice)
+    if ok and split:
+        res.ob("%s merges only records of one kind: True (%s; grouping and merging live in helper methods)" % (short(q), why))
+        return res
     # shape 2: the merge is guarded by a type comparison
     for n in walk_function(fi.node):
         if isinstance(n, ast.If) and any(call_name(c) == "add_attributes" for c in ast.walk(n) if isinstance(c, ast.Call)):
@@ -446,8 +453,9 @@ def c08_r4(ctx: Ctx, rule):
     # the emit loop of the helper de-duplicates per merged record object, not per identifier
     hq = unified_helper(ctx)
     hf = ctx.fn(hq)
-    emit = [c for c in calls_in(hf.node) if call_name(c) == "append"]
-    seen_sets = [c for c in calls_in(hf.node) if call_name(c) == "add" and isinstance(c.func.value, ast.Name)]
+    hcl = [x for x in ctx.helper_closure(hq) if x.startswith(BUNDLE + ".")]
+    emit = [c for x in hcl for c in calls_in(ctx.fn(x).node) if call_name(c) == "append"]
+    seen_sets = [c for x in hcl for c in calls_in(ctx.fn(x).node) if call_name(c) == "add" and isinstance(c.func, ast.Attribute) and isinstance(c.func.value, ast.Name)]
     for c in seen_sets:
         arg = norm(c.args[0]) if c.args else ""
         by_identifier = "identifier" in arg
@@ -587,7 +595,9 @@ def c09_r2(ctx: Ctx, rule):
                      "records lose their %s when copied into another container by update/flattened/add_bundle" % what)
     nq = BUNDLE + ".new_record"
     nf = ctx.fn(nq)
-    ctor = [c2 for c2 in calls_in(nf.node) if isinstance(c2.func, ast.Subscript)]
+    from .paths import record_ctor_func
+
+    ctor = [c2 for c2 in calls_in(nf.node) if record_ctor_func(ctx, nq, c2) is not None]
     if len(ctor) != 1 or len(ctor[0].args) < 3:
         raise AnalysisError("new_record: constructor call not found")
     closure_txt = expr_closure_text(nf, ctor[0].args[2])
